@@ -183,6 +183,9 @@ Proof. unfold exp_gas. lia. Qed.
 Lemma log_gas_ge n s : 375 <= log_gas n s.
 Proof. unfold log_gas. lia. Qed.
 
+Lemma upd_nth_length l : forall i x, length (upd_nth l i x) = length l.
+Proof. induction l as [|a r IH]; intros [|j] x; simpl; auto. Qed.
+
 Section ExecProofs.
 Variable rec : ctx -> world -> N -> fresult.
 
@@ -409,6 +412,22 @@ Proof.
     (destruct (c_static c); [post|]); cbv zeta;
     (destruct (_ <? _); [post|]);
     (destruct (charge _ _) eqn:Ec; [apply charge_some in Ec|post]); post.
+  - (* DUPN *) unfold exec_post, exec_instr. simpl in Hlen.
+    destruct (nth_error (f_stack f) n) eqn:En.
+    + post.
+    + apply nth_error_None in En. lia.
+  - (* SWAPN *) unfold exec_post, exec_instr. simpl in Hlen.
+    destruct (f_stack f) as [|top r] eqn:Hs; simpl in Hlen; [lia|].
+    destruct (nth_error r n) eqn:En.
+    + post. rewrite app_length, firstn_length_le by lia. simpl. rewrite skipn_length. lia.
+    + apply nth_error_None in En. lia.
+  - (* EXCHANGE *) unfold exec_post, exec_instr. simpl in Hlen.
+    destruct (nth_error (f_stack f) n) eqn:En.
+    2:{ apply nth_error_None in En. lia. }
+    destruct (nth_error (f_stack f) m) eqn:Em.
+    2:{ apply nth_error_None in Em. lia. }
+    post. rewrite !upd_nth_length. lia.
+  - (* IMMBAD *) unfold exec_post, exec_instr. post.
 Qed.
 
 End ExecProofs.
@@ -420,7 +439,7 @@ Definition frame_inv (f : frame) : Prop :=
   (length (f_stack f) <= stack_limit)%nat /\ mem_wf (f_mem f).
 
 Lemma stack_req_le i : (snd (stack_req i) <= S (fst (stack_req i)))%nat.
-Proof. destruct i; try destruct k; simpl; lia. Qed.
+Proof. destruct i; try destruct k; try destruct dup; simpl; lia. Qed.
 
 Section StepProofs.
 Variable rec : ctx -> world -> N -> fresult.
@@ -434,7 +453,7 @@ Lemma step_post c f :
   end.
 Proof.
   intros Hrec [Hst Hwf]. unfold step.
-  set (i := decode _ _).
+  set (i := decode _ _ _).
   pose proof (stack_req_le i) as Hle.
   destruct (stack_req i) as [pops pushes] eqn:Hreq. simpl in Hle.
   destruct (length (f_stack f) <? pops)%nat eqn:E1; [simpl; split; auto; lia|].
